@@ -75,6 +75,7 @@ pub enum PropH {
     C14,
     C09,
     C15,
+    C19,
 }
 
 pub struct SimH {
@@ -127,6 +128,8 @@ pub enum KindH {
     CmdCancel { ords: Vec<usize> },
     CmdCancelAll,
     CmdClosePositions,
+    CmdCancelFiltered { filter: FilterB },
+    CmdCloseFiltered { filter: FilterB },
     Trading { enabled: bool },
 }
 
@@ -196,6 +199,7 @@ struct WorldH {
     n_ex: usize,
     inst_ex: Vec<usize>,
     asset_ex: Vec<usize>,
+    inst_underlying: Vec<barter_instrument::Underlying<barter_instrument::asset::AssetIndex>>,
 }
 
 impl WorldH {
@@ -211,7 +215,35 @@ impl WorldH {
             .iter()
             .map(|a| instruments.find_exchange_index(a.value.exchange).unwrap().0)
             .collect();
-        WorldH { instruments, n_ex, inst_ex, asset_ex }
+        let inst_underlying = instruments.instruments().iter().map(|i| i.value.underlying.clone()).collect();
+        WorldH { instruments, n_ex, inst_ex, asset_ex, inst_underlying }
+    }
+    fn filter_ok(&self, f: &FilterB) -> bool {
+        match f {
+            FilterB::None => true,
+            FilterB::Exchanges(v) => !v.is_empty(),
+            FilterB::Instruments(v) => !v.is_empty(),
+            FilterB::UnderlyingsOf(v) => v.iter().any(|i| *i < self.n_inst()),
+        }
+    }
+    fn filter(&self, f: &FilterB) -> InstrumentFilter {
+        match f {
+            FilterB::None => InstrumentFilter::None,
+            FilterB::Exchanges(v) => InstrumentFilter::exchanges(v.iter().map(|e| ExchangeIndex(*e))),
+            FilterB::Instruments(v) => InstrumentFilter::instruments(v.iter().map(|i| InstrumentIndex(*i))),
+            FilterB::UnderlyingsOf(v) => InstrumentFilter::underlyings(v.iter().filter(|i| **i < self.n_inst()).map(|i| self.inst_underlying[*i].clone())),
+        }
+    }
+    /// Which instruments a filter names - from the instrument definitions only.
+    fn scope(&self, f: &FilterB) -> Vec<bool> {
+        (0..self.n_inst())
+            .map(|i| match f {
+                FilterB::None => true,
+                FilterB::Exchanges(v) => v.contains(&self.inst_ex[i]),
+                FilterB::Instruments(v) => v.contains(&i),
+                FilterB::UnderlyingsOf(v) => v.iter().filter(|j| **j < self.n_inst()).any(|j| self.inst_underlying[*j] == self.inst_underlying[i]),
+            })
+            .collect()
     }
     fn n_inst(&self) -> usize {
         self.inst_ex.len()
@@ -245,6 +277,9 @@ struct RunOut {
     account_drops: Vec<u64>,
     account_items_pushed: u64,
     commands_pushed: u64,
+    /// filters of the cancel-orders / close-positions commands, in the order they were pushed
+    cancel_filters: Vec<FilterB>,
+    close_filters: Vec<FilterB>,
     end_ms: u64,
     /// the engine task had already ended (fatal error) when the run went quiet
     engine_died: bool,
@@ -417,6 +452,8 @@ fn run_system(sc: &ScenarioH, w: &WorldH) -> Result<RunOut, String> {
         let mut account_drops = vec![0u64; w.n_ex];
         let mut account_items_pushed = 0u64;
         let mut commands_pushed = 0u64;
+        let mut cancel_filters: Vec<FilterB> = Vec::new();
+        let mut close_filters: Vec<FilterB> = Vec::new();
         let linked = |e: usize| sc.untraded != Some(e);
         for (k, st) in sc.steps.iter().enumerate() {
             tokio::time::sleep_until(start + Duration::from_millis(st.at_ms)).await;
@@ -562,11 +599,29 @@ fn run_system(sc: &ScenarioH, w: &WorldH) -> Result<RunOut, String> {
                 }
                 KindH::CmdCancelAll => {
                     commands_pushed += 1;
+                    cancel_filters.push(FilterB::None);
                     system.cancel_orders(InstrumentFilter::None);
                 }
                 KindH::CmdClosePositions => {
                     commands_pushed += 1;
+                    close_filters.push(FilterB::None);
                     system.close_positions(InstrumentFilter::None);
+                }
+                KindH::CmdCancelFiltered { filter } => {
+                    if !w.filter_ok(filter) {
+                        continue;
+                    }
+                    commands_pushed += 1;
+                    cancel_filters.push(filter.clone());
+                    system.cancel_orders(w.filter(filter));
+                }
+                KindH::CmdCloseFiltered { filter } => {
+                    if !w.filter_ok(filter) {
+                        continue;
+                    }
+                    commands_pushed += 1;
+                    close_filters.push(filter.clone());
+                    system.close_positions(w.filter(filter));
                 }
                 KindH::Trading { enabled } => {
                     commands_pushed += 1;
@@ -624,6 +679,8 @@ fn run_system(sc: &ScenarioH, w: &WorldH) -> Result<RunOut, String> {
             account_drops,
             account_items_pushed,
             commands_pushed,
+            cancel_filters,
+            close_filters,
             end_ms,
             engine_died,
         })
@@ -739,6 +796,7 @@ impl Sim for SimH {
             PropH::C14 => "C14",
             PropH::C09 => "C09",
             PropH::C15 => "C15",
+            PropH::C19 => "C19",
         }
     }
     fn sub_batches(&self) -> Vec<&'static str> {
@@ -751,7 +809,7 @@ impl Sim for SimH {
     fn plan(&self, rng: &mut Rng, sub: usize) -> ScenarioH {
         let faulty = sub == 1;
         let n_ex = *rng.pick(&[1usize, 1, 2, 2, 2, 3]);
-        let inst_per_ex: Vec<usize> = (0..n_ex).map(|_| 1 + rng.usize(2)).collect();
+        let inst_per_ex: Vec<usize> = (0..n_ex).map(|_| *rng.pick(&[1usize, 2, 2, 3])).collect();
         let n_inst: usize = inst_per_ex.iter().sum();
         let n_assets = 3 * n_ex;
         let timeout_ms = *rng.pick(&[20u64, 50, 200]);
@@ -828,9 +886,21 @@ impl Sim for SimH {
             } else if r < 74 {
                 KindH::CmdCancel { ords: pick_ords(rng) }
             } else if r < 77 {
-                KindH::CmdCancelAll
+                let f = match rng.below(5) {
+                    0 | 1 => FilterB::None,
+                    2 => FilterB::Exchanges(vec![rng.usize(n_ex)]),
+                    3 => FilterB::Instruments((0..1 + rng.usize(2)).map(|_| rng.usize(n_inst)).collect()),
+                    _ => FilterB::UnderlyingsOf(vec![rng.usize(n_inst)]),
+                };
+                if f == FilterB::None { KindH::CmdCancelAll } else { KindH::CmdCancelFiltered { filter: f } }
             } else if r < 79 {
-                KindH::CmdClosePositions
+                let f = match rng.below(5) {
+                    0 | 1 => FilterB::None,
+                    2 => FilterB::Exchanges(vec![rng.usize(n_ex)]),
+                    3 => FilterB::Instruments(vec![rng.usize(n_inst)]),
+                    _ => FilterB::UnderlyingsOf(vec![rng.usize(n_inst)]),
+                };
+                if f == FilterB::None { KindH::CmdClosePositions } else { KindH::CmdCloseFiltered { filter: f } }
             } else if r < 84 {
                 KindH::Trading { enabled: rng.chance(1, 2) }
             } else if r < 87 {
@@ -1738,6 +1808,184 @@ impl Sim for SimH {
                     }
                 }
             }
+            // ================================================================================
+            // C19: cancel-orders / close-positions act on exactly the filtered scope
+            // ================================================================================
+            if self.prop == PropH::C19 {
+                use barter::engine::{EngineOutput, action::ActionOutput, command::Command};
+                // lifecycle model of every client order id that ever appears (scenario orders and
+                // the close orders the engine generates): (instrument, quantity, possible states)
+                let mut trk: BTreeMap<String, (usize, i64, Poss)> = BTreeMap::new();
+                for (o, od) in sc.ords.iter().enumerate() {
+                    if w.ord_ok(sc, o) {
+                        trk.insert(cid(o), (od.inst, od.qty, Poss::Set(vec![M::Untracked])));
+                    }
+                }
+                let queue: Rc<RefCell<VecDeque<Tick>>> = Rc::new(RefCell::new(VecDeque::new()));
+                let q2 = queue.clone();
+                let updates = std::iter::from_fn(move || q2.borrow_mut().pop_front());
+                let mut replica = StateReplicaManager::new(out.snapshot.clone(), updates);
+                let (mut n_cancel_cmd, mut n_close_cmd) = (0usize, 0usize);
+                for (k, t) in out.ticks.iter().enumerate() {
+                    let before = replica.replica_engine_state().clone();
+                    queue.borrow_mut().push_back(t.clone());
+                    let _ = replica.run::<u64, ExchangeId>();
+                    let EngineAudit::Process(pa) = &t.event else { continue };
+                    // ---- the command itself, judged against the state before this record -------
+                    match &pa.event {
+                        EngineEvent::Command(Command::CancelOrders(_)) => {
+                            let Some(f) = out.cancel_filters.get(n_cancel_cmd) else {
+                                fail!('chk, "F1_cancel_scope", k, "audit record {k} is a cancel-orders command nobody pushed");
+                                break 'chk;
+                            };
+                            n_cancel_cmd += 1;
+                            let scope = w.scope(f);
+                            let mut got: Vec<(String, String)> = Vec::new();
+                            for o in pa.outputs.iter() {
+                                if let EngineOutput::Commanded(ActionOutput::CancelOrders(c)) = o {
+                                    for r in c.sent.iter().chain(c.errors.iter().map(|(r, _)| r)) {
+                                        got.push((r.key.cid.0.to_string(), format!("{:?}", r.state.id.as_ref().map(|i| i.0.to_string()))));
+                                    }
+                                }
+                            }
+                            let mut any = false;
+                            for (c, (inst, _, p)) in trk.iter() {
+                                let mine: Vec<&(String, String)> = got.iter().filter(|g| g.0 == *c).collect();
+                                if mine.len() > 1 {
+                                    fail!('chk, "F1_cancel_scope", k, "cancel-orders command (audit record {k}) requested the cancellation of order {c} {} times", mine.len());
+                                }
+                                let in_scope = scope.get(*inst).copied().unwrap_or(false);
+                                let Poss::Set(ms) = p else {
+                                    stats.probe("order_state_uncertain_skipped");
+                                    continue;
+                                };
+                                let cancellable = |m: &M| matches!(m, M::InFlightOpen | M::Open(_));
+                                let must = in_scope && ms.iter().all(cancellable);
+                                let must_not = !in_scope || !ms.iter().any(cancellable);
+                                if !in_scope && ms.iter().any(|m| m.tracked()) {
+                                    stats.probe("filter_excludes_tracked_order");
+                                }
+                                if in_scope && ms.iter().all(|m| matches!(m, M::InFlightCancel(_))) {
+                                    stats.probe("cancel_repeated_while_cancel_in_flight");
+                                }
+                                if must {
+                                    any = true;
+                                    if ms.iter().all(|m| matches!(m, M::InFlightOpen)) {
+                                        stats.probe("cancel_of_order_still_open_in_flight");
+                                    }
+                                    let ids: Vec<String> = ms
+                                        .iter()
+                                        .map(|m| match m {
+                                            M::Open(od) => format!("{:?}", Some(format!("{}-{c}", if od.id == 0 { "x" } else { "s" }))),
+                                            _ => format!("{:?}", None::<String>),
+                                        })
+                                        .collect();
+                                    match mine.first() {
+                                        None => {
+                                            fail!('chk, "F1_cancel_scope", k, "cancel-orders {:?} (audit record {k}): order {c} on instrument {inst} is tracked ({ms:?}) and inside the filter but no cancellation was requested for it", f);
+                                        }
+                                        Some(g) if !ids.contains(&g.1) => {
+                                            fail!('chk, "F1_cancel_addressing", k, "cancel-orders (audit record {k}): order {c} ({ms:?}) cancelled with exchange order id {}, expected one of {ids:?}", g.1);
+                                        }
+                                        _ => {}
+                                    }
+                                } else if must_not && !mine.is_empty() {
+                                    fail!('chk, "F1_cancel_scope", k, "cancel-orders {:?} (audit record {k}) requested the cancellation of order {c} (instrument {inst}, in scope: {in_scope}, state {ms:?})", f);
+                                } else if !must && !must_not {
+                                    stats.probe("order_state_uncertain_skipped");
+                                }
+                            }
+                            for g in &got {
+                                if !trk.contains_key(&g.0) {
+                                    fail!('chk, "F1_cancel_scope", k, "cancel-orders (audit record {k}) requested the cancellation of {}, an order id that never appeared before", g.0);
+                                }
+                            }
+                            if any {
+                                stats.probe("cancel_command_with_orders_in_scope");
+                            }
+                        }
+                        EngineEvent::Command(Command::ClosePositions(_)) => {
+                            let Some(f) = out.close_filters.get(n_close_cmd) else {
+                                fail!('chk, "F2_close_scope", k, "audit record {k} is a close-positions command nobody pushed");
+                                break 'chk;
+                            };
+                            n_close_cmd += 1;
+                            let scope = w.scope(f);
+                            let mut exp: Vec<(usize, String)> = Vec::new();
+                            for (i, in_scope) in scope.iter().enumerate() {
+                                if !in_scope {
+                                    continue;
+                                }
+                                let ist = before.instruments.instrument_index(&InstrumentIndex(i));
+                                let (Some(pz), Some(_price)) = (&ist.position.current, ist.data.price()) else { continue };
+                                let side = match pz.side {
+                                    barter_instrument::Side::Buy => barter_instrument::Side::Sell,
+                                    barter_instrument::Side::Sell => barter_instrument::Side::Buy,
+                                };
+                                exp.push((i, format!("{side:?}|{}", pz.quantity_abs.normalize())));
+                            }
+                            exp.sort();
+                            let mut got: Vec<(usize, String)> = Vec::new();
+                            for o in pa.outputs.iter() {
+                                if let EngineOutput::Commanded(ActionOutput::ClosePositions(co)) = o {
+                                    if !co.cancels.is_empty() {
+                                        fail!('chk, "F2_close_scope", k, "the default close-positions strategy issued cancels: {:?}", co.cancels);
+                                    }
+                                    for r in co.opens.sent.iter().chain(co.opens.errors.iter().map(|(r, _)| r)) {
+                                        if r.state.kind != OrderKind::Market {
+                                            fail!('chk, "F2_close_scope", k, "close order is not a market order: {:?}", r);
+                                        }
+                                        got.push((r.key.instrument.0, format!("{:?}|{}", r.state.side, r.state.quantity.normalize())));
+                                    }
+                                }
+                            }
+                            got.sort();
+                            if !exp.is_empty() {
+                                stats.probe("close_command_with_position_in_scope");
+                            }
+                            if got != exp {
+                                fail!('chk, "F2_close_scope", k, "close-positions {:?} (audit record {k}): requested (instrument, side|quantity) {got:?}; positions with a price inside the filter call for {exp:?}", f);
+                            }
+                        }
+                        _ => {}
+                    }
+                    // ---- then advance the lifecycle model by this record ---------------------------
+                    let mut ops: Vec<(String, usize, OpA)> = Vec::new();
+                    if let EngineEvent::Account(AccountStreamEvent::Item(ev)) = &pa.event {
+                        match &ev.kind {
+                            AccountEventKind::OrderSnapshot(s) => {
+                                let st = match &s.0.state {
+                                    OrderState::Active(ActiveOrderState::Open(op)) => Some(SnapSt::Open(od_of_open(op))),
+                                    OrderState::Inactive(InactiveOrderState::FullyFilled) => Some(SnapSt::FullyFilled),
+                                    OrderState::Inactive(InactiveOrderState::Cancelled(c)) => Some(SnapSt::Cancelled { t: ms_of(c.time_exchange) }),
+                                    OrderState::Inactive(InactiveOrderState::Expired) => Some(SnapSt::Expired),
+                                    OrderState::Inactive(InactiveOrderState::OpenFailed(_)) => Some(SnapSt::Failed),
+                                    _ => None,
+                                };
+                                if let Some(st) = st {
+                                    ops.push((s.0.key.cid.0.to_string(), s.0.key.instrument.0, OpA::Snap { ord: 0, st }));
+                                }
+                            }
+                            AccountEventKind::OrderCancelled(c) => {
+                                let (ok, tt) = match &c.state {
+                                    Ok(x) => (true, ms_of(x.time_exchange)),
+                                    Err(_) => (false, 0),
+                                };
+                                ops.push((c.key.cid.0.to_string(), c.key.instrument.0, OpA::CancelResp { ord: 0, ok, t: tt }));
+                            }
+                            _ => {}
+                        }
+                    }
+                    let last = k + 1 == out.ticks.len();
+                    for r in infos[k].sent.iter().chain(hidden.iter().filter(|_| last)) {
+                        ops.push((r.cid.clone(), r.inst, if r.open { OpA::OpenSent { ord: 0 } } else { OpA::CancelSent { ord: 0 } }));
+                    }
+                    for (c, inst, op) in ops {
+                        let e = trk.entry(c).or_insert((inst, i64::MAX / 4, Poss::Set(vec![M::Untracked])));
+                        e.2 = poss_step(&e.2, &op, e.1);
+                    }
+                }
+            }
             let _ = out.algo_calls;
             break 'chk;
         }
@@ -1864,6 +2112,7 @@ impl Sim for SimH {
             PropH::C14 => vec!["market_link_healed", "account_link_healed", "account_stream_reconnected_by_real_manager"],
             PropH::C09 => vec!["late_balance_ignored", "late_public_trade_ignored", "late_order_report_ignored"],
             PropH::C15 => vec!["priced_market_event_with_open_position", "fill_with_position_after", "late_market_event_ignored_by_data_guard"],
+            PropH::C19 => vec!["cancel_command_with_orders_in_scope", "cancel_repeated_while_cancel_in_flight", "cancel_of_order_still_open_in_flight", "close_command_with_position_in_scope", "filter_excludes_tracked_order", "order_state_uncertain_skipped"],
         });
         v
     }
